@@ -180,6 +180,12 @@ pub struct Meta {
     pub lists: Vec<(String, Vec<(String, i64)>)>,
 }
 
+fn is_internal_name(k: &str) -> bool {
+    let b = k.as_bytes();
+    (b.len() >= 3 && (b[0] == b'c' || b[0] == b'g') && b[1] == b'-' && b[2..].iter().all(|c| c.is_ascii_digit()))
+        || k.starts_with('$')
+}
+
 fn walk_container(arr: &[J], path: &str, meta: &mut Meta, depth: usize) {
     if arr.is_empty() {
         return;
@@ -252,7 +258,13 @@ fn walk_container(arr: &[J], path: &str, meta: &mut Meta, depth: usize) {
                 };
                 if path.is_empty() && k != "global decl" {
                     meta.knots.push(k.clone());
-                } else if depth == 1 && !path.starts_with("global decl") {
+                } else if depth == 1
+                    && !path.starts_with("global decl")
+                    && !path.chars().next().map(|c| c.is_ascii_digit()).unwrap_or(true)
+                    && !is_internal_name(k)
+                {
+                    // knot.stitch (weave-internal containers such as c-0 / g-0 / labels inside
+                    // a knot's top-level weave are not addresses the API documents)
                     meta.stitches.push(p2.clone());
                 }
                 let flagged = sub
